@@ -10,9 +10,9 @@ use crate::refimpl::rgzh::Wrap;
 use crate::runner::*;
 use crate::tape::{Fp, Tape};
 
-pub const RULE: &str = "write side: tape -> gz_header{text, time, os 0..255, extra 0..65535 bytes or NULL, name/comment 0..65535 bytes or NULL, hcrc} x memLevel (pending buffer 512 B .. 128 KiB, i.e. smaller or larger than the fields) x level/strategy (XFL) x deflate schedule with output chunks down to 1 byte; oracle = RFC 1952 parse of the emitted header equals the supplied fields bit for bit (FLG, MTIME, XFL rule, OS, XLEN+extra, NUL-terminated name/comment, CRC16 over the header bytes) and the body still decodes to the input. read side: tape -> R-GEN gzip stream with every flag combination and field sizes x fresh stream or stream reused (part of another gzip stream, abandoned anywhere, then inflateReset) x input chunkings (1-byte, splits inside every field) x (extra_max, name_max, comm_max) in {NULL, 0, 1, exact, exact+-1, larger} with capture buffers ending at guard pages; oracle after inflate: text/time/xflags/os/extra_len/hcrc equal the stream's, extra/name/comment prefixes equal up to the capacity, absent fields have NULL pointers, done is 0 while total_in < header length, 1 once data flows, -1 for a zlib stream in auto mode. Non-trivial = header larger than the pending buffer (write) or a field split across >= 2 calls with capacity < field length (read); distinct by case fingerprint.";
+pub const RULE: &str = "write side: tape -> gz_header{text, time, os 0..255, extra 0..65535 bytes or NULL, name/comment 0..65535 bytes or NULL, hcrc} x memLevel (pending buffer 512 B .. 128 KiB, i.e. smaller or larger than the fields) x level/strategy (XFL) x deflate schedule with output chunks down to 1 byte, optionally with deflateCopy-and-continue steps (also while the header is half written); oracle = RFC 1952 parse of the emitted header equals the supplied fields bit for bit (FLG, MTIME, XFL rule, OS, XLEN+extra, NUL-terminated name/comment, CRC16 over the header bytes) and the body still decodes to the input. read side: tape -> R-GEN gzip stream with every flag combination and field sizes x fresh stream or stream reused (part of another gzip stream, abandoned anywhere, then inflateReset) x input chunkings (1-byte, splits inside every field) x (extra_max, name_max, comm_max) in {NULL, 0, 1, exact, exact+-1, larger} with capture buffers ending at guard pages; oracle after inflate: text/time/xflags/os/extra_len/hcrc equal the stream's, extra/name/comment prefixes equal up to the capacity, absent fields have NULL pointers, done is 0 while total_in < header length, 1 once data flows, -1 for a zlib stream in auto mode. Non-trivial = header larger than the pending buffer (write) or a field split across >= 2 calls with capacity < field length (read); distinct by case fingerprint.";
 
-fn write_case(t: &mut Tape, ctx: &Ctx, o: &mut Outcome) {
+fn write_case(t: &mut Tape, ctx: &Ctx, o: &mut Outcome, copy: Option<u8>) {
     let mut po = PlanOpts::standard();
     po.allow_gz_header = false;
     po.max_len = 20_000;
@@ -26,6 +26,15 @@ fn write_case(t: &mut Tape, ctx: &Ctx, o: &mut Outcome) {
     }
     let f = gen_gz_fields(t, true);
     plan.gz = Some(f.clone());
+    if let Some(b) = copy {
+        // deflateCopy while the header is (perhaps) half written, continue on the copy
+        crate::edef::apply_copy(&mut plan, b);
+        if b & 2 == 2 {
+            plan.ops.insert(0, DefOp::Deflate { in_chunk: 0, out_chunk: [1usize, 7, 100, 300][(b as usize >> 2) & 3], flush: Z_NO_FLUSH });
+            plan.ops.insert(1, DefOp::CopySwap);
+        }
+        o.class("write: deflateCopy-and-continue (possibly inside the header)");
+    }
     let hdr_len = rgen::gzip_header_bytes(&f).len();
     ARENAS.with(|ar| {
         let run = run_deflate::<Rs>(&plan, ar);
@@ -256,9 +265,10 @@ fn read_case(t: &mut Tape, ctx: &Ctx, o: &mut Outcome) {
 
 pub fn case(tape: &[u8], ctx: &Ctx) -> Outcome {
     let mut o = Outcome::new();
+    let (tape, copy) = crate::edef::split_copy_suffix(tape);
     let mut t = Tape::new(tape);
     if t.bool() {
-        write_case(&mut t, ctx, &mut o);
+        write_case(&mut t, ctx, &mut o, copy);
     } else {
         read_case(&mut t, ctx, &mut o);
     }
